@@ -3,7 +3,42 @@
 //! crate's.
 #![allow(clippy::all)]
 
-pub use real_async_std::{future, io, prelude, stream};
+pub use real_async_std::{io, prelude, stream};
+
+pub mod future {
+    //! the real combinators, except `timeout`, which runs on the simulator's abstract timers
+    pub use real_async_std::future::{pending, poll_fn, ready, Future, IntoFuture};
+    use std::time::Duration;
+
+    #[derive(Clone, Copy, Debug, PartialEq, Eq)]
+    pub struct TimeoutError {
+        _private: (),
+    }
+    impl std::fmt::Display for TimeoutError {
+        fn fmt(&self, f: &mut std::fmt::Formatter<'_>) -> std::fmt::Result {
+            write!(f, "future has timed out")
+        }
+    }
+    impl std::error::Error for TimeoutError {}
+
+    pub async fn timeout<F, T>(dur: Duration, f: F) -> Result<T, TimeoutError>
+    where
+        F: std::future::Future<Output = T>,
+    {
+        let mut timer = std::pin::pin!(simrt::timer(&format!("timeout({:?})", dur)));
+        let mut f = std::pin::pin!(f);
+        std::future::poll_fn(move |cx| {
+            if let std::task::Poll::Ready(v) = f.as_mut().poll(cx) {
+                return std::task::Poll::Ready(Ok(v));
+            }
+            match timer.as_mut().poll(cx) {
+                std::task::Poll::Ready(()) => std::task::Poll::Ready(Err(TimeoutError { _private: () })),
+                std::task::Poll::Pending => std::task::Poll::Pending,
+            }
+        })
+        .await
+    }
+}
 
 pub mod channel {
     pub use simrt::chan::{bounded, unbounded, Receiver, RecvError, SendError, Sender, TryRecvError, TrySendError};
